@@ -76,7 +76,7 @@ def validate(number):
     """Check if the number is a valid ID card number.
     This checks the length, formatting and check digit."""
     number = compact(number)
-    if not isdigits(number) or int(number) <= 0:
+    if not isdigits(number) or not number.strip('0'):
         raise InvalidFormat()
     if len(number) != 12:
         raise InvalidLength()
